@@ -1,4 +1,5 @@
 import ConjureVerif.Lemmas.AnyRoundTrip
+import ConjureVerif.Lemmas.Base64Canon
 import ConjureVerif.Gen.AnyDe
 import ConjureVerif.Gen.AnyDeSrc
 /-
@@ -81,6 +82,19 @@ theorem C13_view_coercions (w : IntW) (n : Int) (hw : w.contains n = true) (bs u
   · rw [toVal]; simp [anyBytes, Base64.decode_encode bs hb]
   · simp [toValKey, Dec.parseRust_showInt, hw]
   · simp [toValKey, C12.C12_roundtrip_uuid u hl hu]
+
+/-- **view (binary, the other direction)**: a string held in an `any` is viewed as binary only when it is the
+    canonical padded Base64 of the bytes produced — the view never reads two different strings as the same
+    binary, and what it produces are bytes -/
+theorem C13_view_binary_is_canonical (s bs : List Nat) (h : anyBytes (.str s) = .ok bs) :
+    Base64.encode bs = s ∧ Wrap.Bytes bs := by
+  simp only [anyBytes] at h
+  cases hd : Base64.decode s with
+  | none => rw [hd] at h; cases h
+  | some b => rw [hd] at h; cases h; exact Base64.encode_decode s _ hd
+
+example : anyBytes (.str [65, 81, 73, 61]) = .ok [1, 2] ∧ anyBytes (.str [65, 81, 74, 61]) = .error .unsupported := by
+  constructor <;> rfl
 
 /-! #### non-vacuity: a 128-bit integer inside a newtype under an optional, and a bool-keyed map -/
 example : HasTy (.option (.newtype (.int ⟨true, 128⟩))) (.some (.newtype (.int (-170141183460469231731687303715884105728)))) := by
